@@ -17,6 +17,20 @@ from .vmsym import HandlerSym, show
 from . import opspec
 
 
+
+def _canon(fn, canonical):
+    """rename the parameters of fn to their canonical (positional) names in a rendered expression: the rules are about which
+    value flows where, not about what a parameter is called"""
+    ps = fn.f.get('params') or []
+    ren = {p['n']: c for p, c in zip(ps, canonical) if p.get('n') and p['n'] != c}
+
+    def f(text):
+        if text is None or not ren:
+            return text
+        return re.sub(r'(?<![\w.>])(%s)\b' % '|'.join(re.escape(k) for k in ren), lambda m: ren[m.group(1)], text)
+    return f
+
+
 def _summary(leaves):
     out = set()
     for l in leaves:
@@ -98,6 +112,11 @@ def check(run, vm):
     if set(runs) != {'call_machine.cpp', 'direct_machine.cpp'}:
         raise AnalysisBroken('Machine::run not found in both drivers: %s' % sorted(runs))
     crun, drun = runs['call_machine.cpp'], runs['direct_machine.cpp']
+    if len(crun.f['params']) != 3 or len(drun.f['params']) != 3 or len(dr.f['params']) != 8:
+        raise AnalysisBroken('Machine::run / direct_run changed their parameter lists: re-confirm the positional roles in rules/drivers.py')
+    cren = _canon(crun, ['program', 'data', 'map'])
+    dren = _canon(drun, ['program', 'data', 'is'])
+    rren = _canon(dr, ['get_table_mode', 'program', 'data', 'stack', '__map', '_dir', 'status', '__smap'])
     rb = fx.record('regbank')
     fields = [f['n'] for f in rb['fields']]
     ftypes = {f['n']: f['t'] for f in rb['fields']}
@@ -109,18 +128,18 @@ def check(run, vm):
                 if d.get('n') == 'reg' and d.get('init') is not None:
                     init = crun.N(d['init'])
                 if d.get('n') == 'sp':
-                    sp_init = crun.render(d['init'])
+                    sp_init = cren(crun.render(d['init']))
                 if d.get('n') == 'dp':
-                    dp_init = crun.render(d['init'])
+                    dp_init = cren(crun.render(d['init']))
                 if d.get('n') == 'ip':
-                    ip_init = crun.render(d['init'])
+                    ip_init = cren(crun.render(d['init']))
                 if d.get('n') == 'sb':
-                    sb_init = crun.render(d['init'])
+                    sb_init = cren(crun.render(d['init']))
     if init is None:
         raise AnalysisBroken('call_machine Machine::run: `regbank reg = {...}` not found')
     while init['k'] != 'InitListExpr' and init.get('c'):
         init = crun.N(init['c'][0])
-    vals = [crun.render(c) for c in init.get('c', [])]
+    vals = [cren(crun.render(c)) for c in init.get('c', [])]
     if len(vals) != len(fields):
         raise AnalysisBroken('regbank initialiser has %d values for %d fields' % (len(vals), len(fields)))
     got = dict(zip(fields, vals))
@@ -145,8 +164,8 @@ def check(run, vm):
     call = [e for _, e in drun.elements() if e.get('fq') == '(anonymous namespace)::direct_run']
     if len(call) != 1:
         raise AnalysisBroken('direct Machine::run: call of direct_run not found')
-    args = [drun.render(a) for a in call[0]['args']]
-    pnames = [p['n'] for p in dr.f['params']]
+    args = [dren(drun.render(a)) for a in call[0]['args']]
+    pnames = ['get_table_mode', 'program', 'data', 'stack', '__map', '_dir', 'status', '__smap']
     bind = dict(zip(pnames, args))
     want_bind = {'get_table_mode': '0', 'program': 'program', 'data': 'data', 'stack': 'this->_stack', '__map': 'is',
                  '_dir': 'this->_map.dir()', 'status': 'this->_status', '__smap': '&this->_map'}
@@ -163,7 +182,7 @@ def check(run, vm):
     for r, w in want_direct.items():
         inst = 'direct %s init' % r
         d = roles.get(r)
-        g = dr.render(d['init']) if d is not None and d.get('init') is not None else None
+        g = rren(dr.render(d['init'])) if d is not None and d.get('init') is not None else None
         if g is not None and g.replace(' ', '') == w.replace(' ', ''):
             run.held('DRIVERS', inst, dr.where(), '%s = %s' % (r, g), False)
         else:
@@ -184,7 +203,7 @@ def check(run, vm):
         out = []
         for _, e in fn.elements():
             if e['k'] == 'BinaryOperator' and e['op'] == '=' and fn.is_root(e['i']):
-                out.append(fn.render(e).replace(' ', ''))
+                out.append(cren(fn.render(e)).replace(' ', ''))
         return out
     cw = writes(crun)
     dw = []
@@ -193,7 +212,7 @@ def check(run, vm):
         raise AnalysisBroken('direct_run: label end not found')
     for e in dr.blocks[end_b]['el']:
         if e['k'] == 'BinaryOperator' and e['op'] == '=' and dr.is_root(e['i']):
-            dw.append(dr.render(e).replace(' ', ''))
+            dw.append(rren(dr.render(e)).replace(' ', ''))
     if '(map=reg.map)' in cw and '(*map=reg.is)' in cw:
         run.held('DRIVERS', 'call epilogue', crun.where(), 'map = reg.map; *map = reg.is')
     else:
